@@ -983,6 +983,30 @@ pub fn run_c15(prop: &str, seed: u64, nstreams: usize, nsyms: usize, trace_path:
             rep.sample(json!({"origin": g.origin, "bytes": g.data.len(), "prefixes": 21, "allow_incomplete": true}));
         }
     }
+    // output of several window lengths with a 4 KiB dictionary: literals right after each wrap of the circular
+    // window take their context from the window's last byte (prefixes cut before, at and after the wraps)
+    {
+        let mut none = None;
+        let props = Props { lc: 3, lp: 0, pb: 2 };
+        let mut prog: Vec<Sym> = vec![];
+        let mut total = 0usize;
+        let mut k = 0u32;
+        while total < 13000 {
+            if k % 9 == 8 {
+                prog.push(Sym::Match { d: 3, n: 2 + (k % 5) });
+                total += 2 + (k % 5) as usize;
+            } else {
+                prog.push(Sym::Lit { b: 0x61 + ((k * 7 + k / 13) % 90) as u8 });
+                total += 1;
+            }
+            k += 1;
+        }
+        let enc = coding::encode_program(&prog, props);
+        let mut data = lzma_header(props, 4096, Some(enc.out.len() as u64));
+        data.extend_from_slice(&enc.payload);
+        check_prefixes(&data, Opt::ReadFromHeader, prop, &mut rng, 10, rep, &mut none);
+        rep.count("window_wrap_stream");
+    }
     // worst-case symbols: prefixes ending inside / just after the most expensive symbols we can build, with a cut
     // that leaves 1..cost-1 of their bytes parked in the partial input buffer
     {
